@@ -4,6 +4,7 @@ import (
 	"encoding/base64"
 	"fmt"
 	"net/http"
+	"net/url"
 	"strings"
 	"time"
 
@@ -25,20 +26,29 @@ func init() {
 func c11(env *core.Env) {
 	c := env.C
 	modes := []string{"bearer", "bearer", "basic", "both", "unknown-scheme", "malformed", "bearer-no-realm", "none"}
+	// the two registries differ by name, or only by port
+	samePort := c.Bool("hosts-differ-only-by-port", 1, 3)
 	mk := func(i int) *regHost {
 		name := fmt.Sprintf("reg%d.example", i)
+		if samePort {
+			name = fmt.Sprintf("reg.example:%d", 5000+i)
+		}
 		h := &regHost{name: name, realmHost: "auth." + name, service: name, mode: modes[c.Int("mode", len(modes))]}
-		h.realmURL = []string{"http://auth." + name + "/token", "http://auth." + name + "/token?a=b,c", "http://auth." + name + `/to"ken\path`, "http://auth." + name + "/v2/token/"}[c.Int("realmurl", 4)]
+		if samePort {
+			h.realmHost = fmt.Sprintf("auth%d.example", i)
+		}
+		rh := h.realmHost
+		h.realmURL = []string{"http://" + rh + "/token", "http://" + rh + "/token?a=b,c", "http://" + rh + `/to"ken\path`, "http://" + rh + "/v2/token/", "http://" + rh + `/token?tenant=corp\alice`, "http://" + rh + `/token?q=a\\b"c`}[c.Int("realmurl", 6)]
 		switch c.Int("creds", 5) {
 		case 0:
 		case 1:
-			h.user, h.pass = "user-"+name, "pw-"+name+"-SECRET"
+			h.user, h.pass = fmt.Sprintf("user%d", i), fmt.Sprintf("pw%d-SECRET", i)
 		case 2:
-			h.refresh = "rt-" + name + "-SECRET"
+			h.refresh = fmt.Sprintf("rt%d-SECRET", i)
 		case 3:
-			h.user, h.pass, h.refresh = "user-"+name, "pw-"+name+"-SECRET", "rt-"+name+"-SECRET"
+			h.user, h.pass, h.refresh = fmt.Sprintf("user%d", i), fmt.Sprintf("pw%d-SECRET", i), fmt.Sprintf("rt%d-SECRET", i)
 		case 4:
-			h.static = "static-" + name + "-SECRET"
+			h.static = fmt.Sprintf("static%d-SECRET", i)
 		}
 		h.requireCreds = c.Bool("requirecreds", 1, 2) && (h.user != "" || h.refresh != "")
 		h.grant = []string{"all", "all", "subset", "refuse-wide"}[c.Int("grant", 4)]
@@ -181,6 +191,22 @@ func checkConfinement(env *core.Env, w *authWorld, hosts []*regHost, o *outReq) 
 		}
 	}
 	all := strings.Join(hay, "\n")
+	if o.kind == "realm" {
+		// a token request goes to exactly a realm URL that its registry named (the
+		// client may only add its own scope/service/... query parameters)
+		owner := w.realms[o.dest]
+		if owner != nil {
+			ok := false
+			for named := range w.namedRealmURLs[owner.name] {
+				if realmMatches(named, o.url) {
+					ok = true
+				}
+			}
+			if !ok && (o.basicP != "" || strings.Contains(o.body, "refresh_token=")) {
+				env.Failf("C11/credentials-to-unnamed-realm-url", "credentials of %s were sent to %s, but the realm URLs %s has named are %v", owner.name, o.url, owner.name, w.namedRealmURLs[owner.name])
+			}
+		}
+	}
 	for _, h := range hosts {
 		where := fmt.Sprintf("%s %s (%s)", o.method, o.url, o.kind)
 		if h.pass != "" && strings.Contains(all, h.pass) {
@@ -206,4 +232,33 @@ func checkConfinement(env *core.Env, w *authWorld, hosts []*regHost, o *outReq) 
 			env.Failf("C11/username-leak/"+o.kind, "the user name of %s was sent in %s", h.name, where)
 		}
 	}
+}
+
+
+// realmMatches: sent is the named realm URL plus query parameters added by the client.
+func realmMatches(named, sent string) bool {
+	nu, err1 := url.Parse(named)
+	su, err2 := url.Parse(sent)
+	if err1 != nil || err2 != nil {
+		return named == sent
+	}
+	if nu.Scheme != su.Scheme || nu.Host != su.Host || nu.Path != su.Path {
+		return false
+	}
+	sq := su.Query()
+	for k, vs := range nu.Query() {
+		got := sq[k]
+		for _, v := range vs {
+			found := false
+			for _, g := range got {
+				if g == v {
+					found = true
+				}
+			}
+			if !found {
+				return false
+			}
+		}
+	}
+	return true
 }
